@@ -46,6 +46,11 @@ CHECKS.update({
          "Complete product of retry tags {none,@retry,@retry(3),@retry.after(2s),@retry(3).after(2s)} on scenario x rule x feature x --retry x --retry-after x --retry-tag-filter {none,@x,not @x,@x and @y} x placement of x/y against the precedence of the statement; builder-vs-CLI merging of retries, delay, concurrency and fail-fast is exercised end-to-end by the Engine A families retry / conc / ff (checks C05, C06, C08).", "§6 C18"),
 })
 
+CHECKS.update({
+ "C20": ("model_checking", "sched", "exhaustive schedule exploration of the real init_tracing() pipeline (tracing feature build, hook H3 hands over the Dispatch)",
+         "Real Cucumber::custom(..).init_tracing().run() under the gate executor, every poll inside dispatcher::with_default: 1-3 concurrent scenarios, steps and both hooks emitting 0-2 uniquely numbered log events before and after their gate, retry 0/1 with a failure at step / before hook / after hook, gates on steps or on everything, limits 1/2; full DFS or deviation bound 2 (quick) / 4 (thorough). Oracle: every emitted id appears exactly once as a Log of the emitting scenario attempt, between the Started and the result of its step/hook, before run-Finished. Quiescence = 16 polls without observable change (forward_logs self-wakes).", "§6 C20"),
+})
+
 NOT_YET = {
 }
 
